@@ -1,10 +1,11 @@
 (* c11 model driver.  One case per line:
-     M <mbase> <msize> Q <n> <instr>*n R <item>*
+     M <mbase> <msize> [X <k> (<base> <size> <hassym>)*k] Q <n> <instr>*n R <item>*
+   (X: further modules of the module list; module 0 = (mbase, msize) has symbols)
    items (all numbers decimal):
      F id name | O id name | P addr psize name | U addr size psize name
      L addr size line file | I depth cline cfile origin k (addr size)*k | W ty addr size psize tag
    L / I belong to the FUNC block opened by the last U (O does not close a block; F P U W do).
-   answer:  T<tables>;<q1>;<q2>...   with q = D<out>/S<out>   (see fmt_out)  or  P;;<tag> *)
+   answer:  T<tables>;<q1>;<q2>...   with q = D<out>/S<idx>:<out>|S-/G<name>|G-   or  P;;<tag> *)
 let zs = string_of_z
 let opt f = function None -> "-" | Some x -> f x
 
@@ -37,6 +38,12 @@ let () =
         assert (next () = "M");
         let mbase = nz () in
         let msize = nz () in
+        let extra =
+          if toks.(!pos) = "X" then begin
+            ignore (next ());
+            let k = int_of_string (next ()) in
+            List.init k (fun _ -> let b = nz () in let sz = nz () in let h = next () in ((b, sz), h = "1"))
+          end else [] in
         assert (next () = "Q");
         let nq = int_of_string (next ()) in
         let qs = List.init nq (fun _ -> nz ()) in
@@ -89,10 +96,11 @@ let () =
         let ans =
           match table_of rf with
           | Ret st ->
-              (match run_case rf mbase msize qs with
+              (match run_case rf mbase msize extra qs with
                | Ret l ->
-                   String.concat ";" (fmt_table st :: List.map (fun (a, b) ->
-                     "D" ^ fmt_out a ^ "/S" ^ (match b with None -> "-" | Some o -> fmt_out o)) l)
+                   String.concat ";" (fmt_table st :: List.map (fun ((a, b), g) ->
+                     "D" ^ fmt_out a ^ "/S" ^ (match b with None -> "-" | Some (i, o) -> zs i ^ ":" ^ fmt_out o)
+                     ^ "/G" ^ opt zs g) l)
                | r -> fail r)
           | r -> fail r in
         print_endline ans
